@@ -81,7 +81,9 @@ def gen_case(rng):
         kind = rng.choice(["impulse", "impulse", "impulse", "target_addition", "sensor_addition", "agent_removal", "task_priority", "task_priority", "sensor_time_bias"])
         if kind == "impulse":
             dv = [rng.choice([-1, 1]) * rng.uniform(2e-3, 2e-2) for _ in range(3)]
-            events.append({"kind": "impulse", "off": off, "target": rng.choice(T_IDS[:2]), "frame": rng.choice(["eci", "ntw"]), "planned": rng.random() < 0.5, "dv": dv})
+            # a quarter of the impulses carry a fractional second (0.25 / 0.5 / 0.75 s after a whole second, incl. right after a boundary)
+            frac = rng.choice([0.25, 0.5, 0.75]) if rng.random() < 0.25 and off < n * step else 0.0
+            events.append({"kind": "impulse", "off": off + frac, "target": rng.choice(T_IDS[:2]), "frame": rng.choice(["eci", "ntw"]), "planned": rng.random() < 0.5, "dv": dv})
         elif kind == "target_addition" and NEW_T not in added:
             added.add(NEW_T)
             events.append({"kind": "target_addition", "off": off, "engine": rng.choice([1, 2])})
@@ -372,7 +374,7 @@ def eval_case(ctx, case):
     t_final = n * step
 
     def kstar(off):
-        return -(-off // step)
+        return int(math.ceil(off / step - 1e-12))
 
     removed_targets = {e["agent"]: kstar(e["off"]) for e in events if e["kind"] == "agent_removal" and e["agent_type"] == "target"}
     for i, e in enumerate(events):
